@@ -98,6 +98,15 @@ pub fn run(sc: &Value) -> Value {
                 let r = backup(&archive, &src, &opts, TestMonitor::arc()).await;
                 res["backup_ok"] = json!(r.is_ok());
                 res["backup_changes"] = json!(events.lock().unwrap().clone());
+                // the version just made, compared with the very tree it was made from
+                let st2 = archive.open_stored_tree(BandSelectionPolicy::Latest).await.unwrap();
+                let lt2 = SourceTree::open(&src).unwrap();
+                let mut d2 = diff(&st2, &lt2, DiffOptions::default(), TestMonitor::arc()).await.unwrap();
+                let mut post = Vec::new();
+                while let Some(c) = d2.next().await {
+                    post.push(json!([c.apath.to_string(), c.change.sigil().to_string()]));
+                }
+                res["post_diff"] = json!(post);
             }
             res
         })
